@@ -132,8 +132,12 @@ func MTUBands(maxKeyLen int, thorough bool) []int {
 	for m := 65527; m <= 65535; m++ {
 		set[m] = true
 	}
+	b24, b256 := BoundaryMTUs(base)
+	for _, m := range append(b24, b256...) {
+		set[m-1], set[m], set[m+1] = true, true, true
+	}
 	if thorough {
-		for _, m := range []int{100, 128, 279, 280, 281, 282, 283, 300, 512, 4096, 32768} {
+		for _, m := range []int{100, 128, 300, 512, 4096, 32768} {
 			set[m] = true
 		}
 	}
@@ -145,6 +149,20 @@ func MTUBands(maxKeyLen int, thorough bool) []int {
 	}
 	sort.Ints(out)
 	return out
+}
+
+// BoundaryMTUs returns the budgets at which a chunk's value is exactly 23/24 resp. 255/256 bytes
+// for one of the key lengths (rawkey+2+24 and rawkey+3+256), not below min.
+func BoundaryMTUs(min int) (b24, b256 []int) {
+	for _, k := range KeyLens {
+		if m := rawKeyLen(k) + 26; m >= min {
+			b24 = append(b24, m)
+		}
+		if m := rawKeyLen(k) + 259; m >= min {
+			b256 = append(b256, m)
+		}
+	}
+	return
 }
 
 var schedModes = []string{"", "gosched", "sleep", "mixed", "writerfirst", "readerfirst"}
@@ -165,9 +183,12 @@ func SweepParams(thorough bool, seed int64, limit int) []Params {
 	keyLens := KeyLens
 	mtus := MTUBands(40, thorough)
 	if !thorough {
-		// one MTU per band, chosen by the seed, plus the two fixed landmarks
+		// one MTU per band, chosen by the seed, the fixed landmark, and one budget on each
+		// head-size boundary of the overhead computation (value of 23/24 and 255/256 bytes)
 		min := 7 + rawKeyLen(40)
-		mtus = []int{min + rng.Intn(8), min + 8 + rng.Intn(57), 251 + rng.Intn(10), 1300, 65527 + rng.Intn(9)}
+		b24, b256 := BoundaryMTUs(min)
+		mtus = []int{min + rng.Intn(8), min + 8 + rng.Intn(57), 251 + rng.Intn(10), 1300, 65527 + rng.Intn(9),
+			b24[rng.Intn(len(b24))], b256[rng.Intn(len(b256))]}
 	}
 	for _, mtu := range mtus {
 		for _, k1 := range keyLens {
